@@ -6,5 +6,7 @@ mode="$1"
 for d in seeded/${ONLY:-C*}-*/; do
   id=$(basename "$d"); pid=${id%-*}
   if [ "$mode" = ALL ]; then checks=$(cat tools/claimed.txt | sort -u | tr '\n' ' '); else checks=$pid; fi
+  # seeded/<id>/check names the check that reports a change whose own property's check cannot reach it (see notes there)
+  if [ "$mode" != ALL ] && [ -f "seeded/$id/check" ]; then checks="$pid $(cat seeded/$id/check)"; fi
   for c in $checks; do echo "$id $c"; done
 done | xargs -P ${JOBS:-4} -L 1 sh -c 'tier=quick; [ -f seeded/$0/tier ] && tier=$(cat seeded/$0/tier); out=$(TIER=$tier tools/mut.sh seeded/$0/patch.diff $1 2>&1); echo "$0 $1 $(echo "$out" | grep -o "exit=[0-9]*" | head -1) $(echo "$out" | grep -m1 -o "signature=[^ ]*")"' | sort
